@@ -120,7 +120,7 @@
 //! - Multiple rows from non-aggregate subqueries return only the first row
 
 use crate::btree::BTree;
-use crate::database::dml::mvcc_helpers::{get_user_data, wrap_record_for_update};
+use crate::database::dml::mvcc_helpers::{get_user_data, is_tombstone, wrap_record_for_update};
 use crate::database::macros::with_btree_storage;
 use crate::database::row::Row;
 use crate::database::{Database, ExecuteResult};
@@ -1322,7 +1322,10 @@ impl Database {
             if let Some((ref target_key, ref target_val)) = pk_lookup_info {
                 let cursor = btree.cursor_seek(target_key)?;
 
-                if cursor.valid() && cursor.key()? == target_key.as_slice() {
+                if cursor.valid()
+                    && cursor.key()? == target_key.as_slice()
+                    && !is_tombstone(cursor.value()?)
+                {
                     let key = cursor.key()?;
                     let value = cursor.value()?;
                     let user_data = get_user_data(value);
@@ -1471,6 +1474,10 @@ impl Database {
                 }
 
                 let value = cursor.value()?;
+                if is_tombstone(value) {
+                    cursor.advance()?;
+                    continue;
+                }
                 let user_data = get_user_data(value);
                 let values = decoder.decode(key, user_data)?;
                 let mut row_values: Vec<OwnedValue> =
